@@ -195,6 +195,82 @@ pub fn tamper(ctx: &mut Ctx, base: &[u8], creds: &RefCreds, covered_end: usize, 
     }
 }
 
+/// Near-miss HMAC inputs: the value an almost-right implementation would accept (length field not
+/// rewritten, rewritten to exclude the attribute, to include what follows, text including the
+/// attribute header, the password used as key for long-term credentials, ...).  A message carrying
+/// such a value in place of the RFC one must not validate.  Also the **replay** construction: an
+/// ordinary attribute carrying the genuine HMAC bytes at the genuine integrity offset, forged
+/// attributes behind it, and the genuine integrity attribute at the end.
+pub fn near_miss_hmac_inputs(ctx: &mut Ctx, base: &[u8], creds: &RefCreds) {
+    use crate::refimpl::crypto::{hmac_sha1, hmac_sha256};
+    let rp = ref_parse(base);
+    if !rp.accepted() {
+        return;
+    }
+    let key = creds.key();
+    let n = base.len();
+    for a in rp.attrs.iter().filter(|a| a.ty == MI || a.ty == MI256) {
+        let off = a.off;
+        let end = off + 4 + a.len;
+        let text = |l: usize, upto: usize| {
+            let mut v = base[..upto].to_vec();
+            v[2] = (l >> 8) as u8;
+            v[3] = l as u8;
+            v
+        };
+        let declared = rp.declared;
+        let alts: Vec<(&'static str, Vec<u8>, Vec<u8>)> = vec![
+            ("length-not-rewritten", text(declared, off), key.clone()),
+            ("length-excluding-attribute", text(off - 20, off), key.clone()),
+            ("length-as-total-size", text(end, off), key.clone()),
+            ("length-to-end-of-buffer", text(n - 20, off), key.clone()),
+            ("text-including-attribute-header", text(end - 20, off + 4), key.clone()),
+            ("length-zero", text(0, off), key.clone()),
+            ("empty-key", text(end - 20, off), vec![]),
+            (
+                "password-as-key",
+                text(end - 20, off),
+                match creds {
+                    RefCreds::Long(_, _, p) => p.as_bytes().to_vec(),
+                    RefCreds::Short(p) => crate::refimpl::crypto::md5(p.as_bytes()).to_vec(),
+                },
+            ),
+        ];
+        for (name, t, k) in alts {
+            let h: Vec<u8> = if a.ty == MI { hmac_sha1(&k, &t).to_vec() } else { hmac_sha256(&k, &t)[..a.len.min(32)].to_vec() };
+            if h.len() != a.len || h == base[off + 4..end] || hmac_equivalent(&k, &key) && t == text(end - 20, off) {
+                continue;
+            }
+            let mut m = base.to_vec();
+            m[off + 4..end].copy_from_slice(&h);
+            // only the attribute that validation looks at decides: judge by the reference
+            let rpm = ref_parse(&m);
+            if !rpm.accepted() {
+                continue; // (a FINGERPRINT behind it no longer matches: the parser refuses it anyway)
+            }
+            let ri = ref_integrity(&m, &rpm.attrs, creds);
+            if ri.none_correct() || last_exposed_integrity(&rpm.attrs).and_then(|li| ri.correct_at(li)) == Some(false) {
+                check_must_fail(ctx, &m, creds, "near-miss-hmac-rejected", name);
+                ctx.count("near-miss-hmac-inputs");
+            }
+        }
+    }
+    // replay: [.., X(h) at the integrity offset, forged attribute, MI(h)] for a message ending in one MESSAGE-INTEGRITY
+    if let Some(a) = rp.attrs.last().filter(|a| (a.ty == MI || a.ty == MI256) && a.len % 4 == 0) {
+        let h = base[a.off + 4..a.off + 4 + a.len].to_vec();
+        let mut m = base[..a.off].to_vec();
+        push_tlv(&mut m, &Tlv::new(0x7f5a, h.clone()));
+        push_tlv(&mut m, &Tlv::new(0x0006, b"forged".to_vec()));
+        push_tlv(&mut m, &Tlv::new(a.ty, h));
+        let l = m.len() - 20;
+        set_len(&mut m, l);
+        if l <= 0xffff && ref_parse(&m).accepted() {
+            check_must_fail(ctx, &m, creds, "replayed-hmac-rejected", if a.ty == MI { "sha1" } else { "sha256" });
+            ctx.count("hmac-replays");
+        }
+    }
+}
+
 pub fn other_keys(ctx: &mut Ctx, base: &[u8], creds: &RefCreds, rng: &mut crate::prng::Rng) {
     let key = creds.key();
     for alt in near_miss_creds(rng, creds) {
@@ -301,6 +377,7 @@ pub fn run(ctx: &mut Ctx) {
             continue;
         };
         other_keys(ctx, &base, &creds, &mut rng);
+        near_miss_hmac_inputs(ctx, &base, &creds);
         tamper(ctx, &base, &creds, covered_end, &mut rng, !quick);
     }
     ctx.count_n("sealed-messages", done);
